@@ -481,6 +481,10 @@ def find_group_cohorts(
         bitmask = bitmask[..., present_labels_mask]
         chunks_per_label = chunks_per_label[present_labels_mask]
 
+    if present_labels.size == 0:
+        # none of the expected labels occurs: there is nothing to plan
+        return "map-reduce", {}
+
     label_chunks = {
         present_labels[idx].item(): bitmask.indices[slice(bitmask.indptr[idx], bitmask.indptr[idx + 1])]
         for idx in range(bitmask.shape[LABEL_AXIS])
@@ -2830,6 +2834,9 @@ def groupby_reduce(
             chunks_cohorts = {}
 
         method = _choose_method(method, preferred_method, agg, by_, nax)
+        if method == "cohorts" and not chunks_cohorts:
+            # no label is present, so there are no cohorts to reduce separately
+            method = "map-reduce"
 
         if agg.chunk[0] is None and method != "blockwise":
             raise NotImplementedError(
